@@ -248,6 +248,23 @@ def run(ctx):
                       "when %s() fails while copying a stream to its final place the temporary (only complete) copy "
                       "is still removed" % cal)
 
+    # after a failed copy the temporary directory keeps the whole stream, metadata included (the relocation
+    # loop evaluated on directory orders x failing copies: C09 R9.2's instances with a failing copy)
+    from rules import C09 as _c09
+    from ovsa.engine import Ctx as _Ctx
+    sub9 = _Ctx("C09", prog, ctx.root, "quick")
+    _c09.run(sub9)
+    n9 = 0
+    for i_ in sub9.instances:
+        if i_["rule"] == "R9.2" and "failing=" in i_["inst"] and not i_["inst"].endswith("failing=None"):
+            n9 += 1
+            if i_["ok"]:
+                ctx.ok("R10.2", "relocation-after-failed-copy:" + i_["inst"], i_["where"])
+            else:
+                ctx.fail("R10.2", "relocation-after-failed-copy:" + i_["inst"], i_["where"], i_["what"] +
+                         " (the only complete copy of the stream is split between the two directories)")
+    ctx.need(n9 >= 6, "R10.2: only %d relocation instances with a failing copy" % n9)
+
     # ---- R10.3 ---------------------------------------------------------------------------
     # a short write is an I/O fault too: the loop must resume where the kernel stopped (same evaluation as C01 R1.3)
     from rules.C01 import _check_write_loop
